@@ -13,6 +13,10 @@ class RecSoftmax:
         self.args = []
 
     def __call__(self, H, copy=True):
+        if sx.NATIVE:           # replay on float inputs: record, then the real scikit-learn softmax
+            from sklearn.utils.extmath import softmax
+            self.args.append(np.array(H, dtype=float, copy=True))
+            return softmax(np.array(H, dtype=float), copy=copy)
         self.args.append(np.array(H, dtype=object, copy=True))
         return sx.softmax_stub(H)
 
@@ -98,7 +102,9 @@ class Bins(SxContract):
 class ActivePoints(SxContract):
     """find_active_points(X) returns feature f iff some cut point lies strictly inside (min_i x_if, max_i x_if)."""
     fn = "gemclus.tree.douglas.Douglas.find_active_points"
+    boundaries = True       # <= versus <: points ON a threshold / cut are part of the contract, not a measure-zero set
     safety = False
+    tie_variants = True     # "strictly inside the range": a cut point equal to the column minimum / maximum is the boundary case
     max_paths = 20000
 
     def __init__(self, n, d, cuts):
@@ -181,3 +187,25 @@ def init_params_table():
             obs.append(Ob(f"Douglas._init_params[d={d},cuts={cuts}]: mask of the wrong length raises ValueError",
                           PROVED if ok else REFUTED, "enumeration", "P", {"replayed": True}, fn=fn))
     return obs
+
+
+def lemma_link_L9(obs):
+    """Lemma L9 (lean/Lemmas.lean bin_argmax, any number of cut points, any T > 0) has as its only code-facing hypothesis the
+    logit-difference identity; it is tied to the clauses discharged on the real Douglas._infer: the Lean statement still has
+    that hypothesis, and every explored (shape, mask) has all its logit-difference clauses PROVED."""
+    import re
+    text = open(os.path.join(ROOT, "lean", "Lemmas.lean")).read()
+    m = re.search(r"theorem bin_argmax(.*?):= by", text, re.S)
+    stmt = m.group(1) if m else ""
+    want = ["(hT : 0 < T)", "(hstep : ∀ j < m, ℓ (j+1) - ℓ j = (x - c j) / T)", "(hbelow : ∀ j < r, c j < x)",
+            "(habove : ∀ j, r ≤ j → j < m → x < c j)", "∀ j ≤ m, j ≠ r → ℓ j < ℓ r"]
+    hyps = re.findall(r"\((h\w+) :", stmt)
+    ok = all(w in stmt for w in want) and sorted(hyps) == ["hT", "habove", "hbelow", "hr", "hstep"]
+    out = [Ob("lean-link: bin_argmax assumes of the code only the logit-difference identity (x - c_(j))/T, T > 0, sorted cut points",
+              PROVED if ok else UNDECIDED, "text-match", "P", {"hypotheses": hyps}, fn="specs.douglas (lemma L9)")]
+    mine = [o for o in obs if "logit[" in o.name and "]-logit[" in o.name]
+    bad = [o.name for o in mine if o.status != PROVED]
+    out.append(Ob("lean-link: every explored soft binning discharges the logit-difference hypothesis of bin_argmax",
+                  PROVED if mine and not bad else UNDECIDED, "text-match", "P", {"clauses": len(mine), "not proved": bad[:5]},
+                  fn="gemclus.tree.douglas.Douglas._infer"))
+    return out
